@@ -21,7 +21,7 @@
 use crate::relations::SyntaxKind::{self, *};
 use crate::relations::{BuildProfile, VersionConstraint};
 use debversion::Version;
-use rowan::{Direction, NodeOrToken};
+use rowan::Direction;
 use std::collections::HashSet;
 
 /// Error type for parsing relations fields
@@ -998,16 +998,19 @@ impl Entry {
             .0
             .children_with_tokens()
             .any(|n| n.kind() == PIPE || n.kind() == RELATION);
+        // A copy of the relation that can be attached to this tree
+        let relation: SyntaxElement =
+            SyntaxNode::new_root_mut(relation.0.green().into_owned()).into();
 
         let (position, new_children) = if let Some(current_relation) = self.relations().last() {
-            let to_insert: Vec<NodeOrToken<GreenNode, GreenToken>> = if is_empty {
-                vec![relation.0.green().into()]
+            let to_insert = if is_empty {
+                vec![relation]
             } else {
                 vec![
-                    NodeOrToken::Token(GreenToken::new(WHITESPACE.into(), " ")),
-                    NodeOrToken::Token(GreenToken::new(PIPE.into(), "|")),
-                    NodeOrToken::Token(GreenToken::new(WHITESPACE.into(), " ")),
-                    relation.0.green().into(),
+                    make_token(WHITESPACE, " "),
+                    make_token(PIPE, "|"),
+                    make_token(WHITESPACE, " "),
+                    relation,
                 ]
             };
 
@@ -1017,36 +1020,16 @@ impl Entry {
             (
                 child_count,
                 if is_empty {
-                    vec![relation.0.green().into()]
+                    vec![relation]
                 } else {
-                    vec![
-                        NodeOrToken::Token(GreenToken::new(PIPE.into(), "|")),
-                        NodeOrToken::Token(GreenToken::new(WHITESPACE.into(), " ")),
-                        relation.0.green().into(),
-                    ]
+                    vec![make_token(PIPE, "|"), make_token(WHITESPACE, " "), relation]
                 },
             )
         };
 
-        // Rebuild this entry only (replace_with would return the whole field)
-        let new_root = SyntaxNode::new_root_mut(
-            self.0
-                .green()
-                .splice_children(position..position, new_children),
-        );
-
-        if let Some(parent) = self.0.parent() {
-            parent.splice_children(self.0.index()..self.0.index() + 1, vec![new_root.into()]);
-            self.0 = parent
-                .children_with_tokens()
-                .nth(self.0.index())
-                .unwrap()
-                .clone()
-                .into_node()
-                .unwrap();
-        } else {
-            self.0 = new_root;
-        }
+        // Edit the entry in place, so that handles obtained earlier (this
+        // entry, its relations) keep pointing into the field
+        self.0.splice_children(position..position, new_children);
     }
 }
 
